@@ -228,6 +228,22 @@ def run_case(case, tier):
         classes.append("coupling-registered")
     if nsw:
         classes.append("swap-executed")
+    # the written file (rows of the averaged container): with one conformation, a row is starred exactly when
+    # that conformation's group has a coupled partner
+    if len(on.rec["names"]) == 1 and on.text:
+        conf1 = on.rec["confs"][on.rec["names"][0]]
+        bylab = {}
+        for g in conf1["groups"]:
+            bylab.setdefault(g["label"], []).append(g)
+        for row in obs.parse_det_rows(obs.parse_pka_text(on.text)["det_rows"]):
+            gs = bylab.get(row["label"], [])
+            if len(gs) != 1:
+                continue
+            counts["file_rows_star_checked"] = counts.get("file_rows_star_checked", 0) + 1
+            if row["star"] != bool(gs[0]["ncov"]):
+                viol.append({"cls": "star-mismatch", "msg": "written file: row of %s starred=%r but the group has %d coupled partner(s) (%d covalently coupled)" % (
+                    row["label"], row["star"], len(gs[0]["ncov"]), len(gs[0]["cov"]))})
+                break
     # text: apart from stars and the coupled-residues notice the files must agree
     ta = obs.parse_pka_text(on.text)
     tb = obs.parse_pka_text(off.text)
